@@ -1,7 +1,8 @@
 import HqModel.Sched.Batches
 /-!
 M7 Sched, part 2: the MILP of `run_scheduling_solver` (`scheduler/solver.rs`) *as data*, for the fragment of
-C15 (single-node, single-variant, cpu-only classes; `min_utilization = 0`; no time limits; no multi-node).
+C15 (single-node, single-variant classes over two resource kinds; `min_utilization = 0`; no time limits; no
+multi-node).
 
 Variables (all integer, lower bound 0):
 * `P w c`  placement count of class `c` on worker `w` (`add_nat_variable`), created iff the worker has not
@@ -10,14 +11,18 @@ Variables (all integer, lower bound 0):
            batch of `c` blocks somebody; takes all free resources of `w`;
 * `B c s`  blocker (`add_bool_variable`): may be 0 only if at least `s` tasks of class `c` are scheduled/reserved.
 
-Objective weights are `f64` in the code:
-  `P w c : (need c / G) * (n - widx) * weight c / n`,  `R w c : widx / (n * 100)`   (G = sum of the free cpus)
-Here they are the exact rationals, scaled by the common denominator `den = max G 1 * n * 10^6` (amounts in 1/10000,
-weight in 1/10000): `P : need c * (n - widx) * weight c * 100`, `R : widx * max G 1 * 10^4`.
-The harness checks per generated instance that the recorded `f64` weight times `den` is this integer up to 1e-4.
+Objective weights are `f64` in the code (`create_sn_var`: the sum over the ENTRIES of the request of
+`amount / global`, where `global` is the sum of the free amounts of that kind over all workers and a kind with
+`global < 1e-6` contributes 0):
+  `P w c : (need c / G1 + need2 c / G2) * (n - widx) * weight c / n`,  `R w c : widx / (n * 100)`
+Here they are the exact rationals, scaled by the common denominator `den = max G1 1 * max G2 1 * n * 10^6` (amounts
+in 1/10000, weight in 1/10000): `P : (need c * max G2 1 + need2 c * max G1 1) * (n - widx) * weight c * 100` (a term
+whose `G` is 0 dropped), `R : widx * max G1 1 * max G2 1 * 10^4`. Without the second kind anywhere (`G2 = 0`) these are
+the numbers of the cpu-only model. The harness checks per generated instance that the recorded `f64` weight times
+`den` is this integer up to a relative 1e-13.
 
-Row coefficients: resource rows are kept in 1/10000 cpu (the code uses `as_f64()` units; both sides print rows
-divided by their gcd); count rows in tasks.
+Row coefficients: resource rows are kept in 1/10000 units (the code uses `as_f64()` units; both sides print rows
+divided by their gcd); count rows in tasks. There is one resource row per worker and resource kind.
 -/
 namespace HqModel.Sched
 
@@ -67,11 +72,11 @@ def Optimal (m : Milp) (x : Assign) : Prop := Feasible m x ∧ ∀ y, Feasible m
 /-! ### which variables exist -/
 
 /-- `!is_request_blocked && have_immediate_resources_for_rq` (time limits are outside the fragment) -/
-def hasP (inst : Instance) (w : Worker) (c : Nat) : Bool := !w.blocked.contains c && inst.need c ≤ w.free
+def hasP (inst : Instance) (w : Worker) (c : Nat) : Bool := !w.blocked.contains c && fitsNow inst c w
 
 /-- `!has_variant && batch.is_blocker && worker.is_capable_to_run_rqv` -/
 def hasR (inst : Instance) (w : Worker) (b : Batch) : Bool :=
-  !hasP inst w b.rq && b.blocker && inst.need b.rq ≤ w.total
+  !hasP inst w b.rq && b.blocker && capable inst b.rq w
 
 def countVar (inst : Instance) (w : Worker) (b : Batch) : Option Var :=
   if hasP inst w b.rq then some (.P w.id b.rq) else if hasR inst w b then some (.R w.id b.rq) else none
@@ -86,12 +91,21 @@ def countVarsOf (inst : Instance) (bs : List Batch) (c : Nat) : List Var :=
 
 def Instance.freeSum (inst : Instance) : Nat := (inst.workers.map (·.free)).sum
 
+def Instance.freeSum2 (inst : Instance) : Nat := (inst.workers.map (·.free2)).sum
+
+/-- the share of a request in the free resources of the cluster, summed over its entries, times
+`max G1 1 * max G2 1` -/
+def shareP (inst : Instance) (c : Nat) : Nat :=
+  (if inst.freeSum = 0 then 0 else inst.need c * max inst.freeSum2 1) +
+  (if inst.freeSum2 = 0 then 0 else inst.need2 c * max inst.freeSum 1)
+
 def weightP (inst : Instance) (widx c : Nat) : Nat :=
-  if inst.freeSum = 0 then 0 else inst.need c * (inst.workers.length - widx) * inst.weight c * 100
+  shareP inst c * (inst.workers.length - widx) * inst.weight c * 100
 
-def weightR (inst : Instance) (widx : Nat) : Nat := widx * max inst.freeSum 1 * 10000
+def weightR (inst : Instance) (widx : Nat) : Nat := widx * (max inst.freeSum 1 * max inst.freeSum2 1) * 10000
 
-def Instance.den (inst : Instance) : Nat := max inst.freeSum 1 * inst.workers.length * 1000000
+def Instance.den (inst : Instance) : Nat :=
+  max inst.freeSum 1 * max inst.freeSum2 1 * inst.workers.length * 1000000
 
 def prVars (inst : Instance) (bs : List Batch) : List (Var × Nat) :=
   inst.workers.zipIdx.flatMap fun wi =>
@@ -102,14 +116,26 @@ def prVars (inst : Instance) (bs : List Batch) : List (Var × Nat) :=
 
 /-! ### rows -/
 
-/-- "w resource limit" -/
+/-- "w resource limit" for the cpus: a placement takes what its request asks for, a reservation all that is free
+(`iter_pairs` skips a kind of which nothing is free) -/
+def resourceRow1 (inst : Instance) (bs : List Batch) (w : Worker) : Option Row :=
+  let terms : List (Var × Nat) := bs.filterMap fun b =>
+    if hasP inst w b.rq then some (.P w.id b.rq, inst.need b.rq)
+    else if hasR inst w b && w.free != 0 then some (.R w.id b.rq, w.free)
+    else none
+  if terms.isEmpty then none else some { ge := false, bound := w.free, terms := terms }
+
+/-- "w resource limit" for the second kind: only the placements whose request has an entry for it -/
+def resourceRow2 (inst : Instance) (bs : List Batch) (w : Worker) : Option Row :=
+  let terms : List (Var × Nat) := bs.filterMap fun b =>
+    if hasP inst w b.rq then (if inst.need2 b.rq = 0 then none else some (.P w.id b.rq, inst.need2 b.rq))
+    else if hasR inst w b && w.free2 != 0 then some (.R w.id b.rq, w.free2)
+    else none
+  if terms.isEmpty then none else some { ge := false, bound := w.free2, terms := terms }
+
+/-- the resource rows, one per worker and resource kind -/
 def resourceRows (inst : Instance) (bs : List Batch) : List Row :=
-  inst.workers.filterMap fun w =>
-    let terms : List (Var × Nat) := bs.filterMap fun b =>
-      if hasP inst w b.rq then some (.P w.id b.rq, inst.need b.rq)
-      else if hasR inst w b && w.free != 0 then some (.R w.id b.rq, w.free)
-      else none
-    if terms.isEmpty then none else some { ge := false, bound := w.free, terms := terms }
+  inst.workers.filterMap (resourceRow1 inst bs) ++ inst.workers.filterMap (resourceRow2 inst bs)
 
 /-- "size limit for rq" -/
 def sizeRows (inst : Instance) (bs : List Batch) : List Row :=
@@ -117,15 +143,21 @@ def sizeRows (inst : Instance) (bs : List Batch) : List Row :=
     let cv := countVars inst b
     if cv.isEmpty || b.reached then none else some { ge := false, bound := b.size, terms := cv.map (·, 1) }
 
-/-- `GapCache::get_gap` for single-variant classes: what `high` can never use of the whole worker, minus what
-the tasks of other classes reserved there take, in tasks of `low` -/
-def gap (inst : Instance) (high low : Nat) (w : Worker) : Nat :=
-  let nh := inst.need high
-  let base := w.total - nh * (w.total / nh)
-  let free := w.assigned.foldl (fun f a => if a ≠ high then f - inst.need a else f) base
-  free / inst.need low
+/-- what is left of an amount after the tasks of the classes other than `high` reserved on the worker have taken
+their part (`WorkerResources::remove` is saturating; `g` = the need of a class in this kind) -/
+def gapLeft (g : Nat → Nat) (high : Nat) (assigned : List Nat) (base : Nat) : Nat :=
+  assigned.foldl (fun f a => if a ≠ high then f - g a else f) base
 
-def capableWorkers (inst : Instance) (c : Nat) : List Worker := inst.workers.filter fun w => inst.need c ≤ w.total
+/-- `GapCache::get_gap` for single-variant classes: what `high` can never use of the whole worker (the TOTAL
+resources minus as many `high` tasks as fit, per kind), minus what the tasks of other classes reserved there take
+(saturating, per kind), in tasks of `low` -/
+def gap (inst : Instance) (high low : Nat) (w : Worker) : Nat :=
+  let n := fitCount w.total w.total2 (inst.need high) (inst.need2 high)
+  let free1 := gapLeft inst.need high w.assigned (w.total - inst.need high * n)
+  let free2 := gapLeft inst.need2 high w.assigned (w.total2 - inst.need2 high * n)
+  fitCount free1 free2 (inst.need low) (inst.need2 low)
+
+def capableWorkers (inst : Instance) (c : Nat) : List Worker := inst.workers.filter fun w => capable inst c w
 
 /-- per worker with a positive gap: "if #rq{blocker} < s then limit #rq to cut + gap" / "limit #rq to cut + gap" -/
 def gapRows (inst : Instance) (bs : List Batch) (b : Batch) (cut : Cut) (c' : Nat) (s? : Option Nat) : List Row :=
@@ -213,7 +245,7 @@ def extract (inst : Instance) (x : Assign) : List (Nat × List (Nat × Nat)) :=
 def boxBound (inst : Instance) : Var → Nat
   | .P w c =>
     match inst.workers.find? (·.id = w) with
-    | some wk => wk.free / inst.need c
+    | some wk => fitCount wk.free wk.free2 (inst.need c) (inst.need2 c)
     | none => 0
   | _ => 1
 
